@@ -178,6 +178,9 @@ structure RT where
   latest      : Option Block := none
   blockEvents : SKM (Nat × List Transmit) := {}
 
+/-- `(*big.Int).Cmp` on non-negative numbers: −1, 0, +1 -/
+def bigCmp (a b : Nat) : Int := if a < b then -1 else if a = b then 0 else 1
+
 /-- `case chain.Block: rt.updateBlock(evt)` after "fix: simulator: confirmations are computed
     against the highest block seen": `latest` only moves to a higher block number
     (`rt.latest == nil || … || block.Number.Cmp(rt.latest.Number) > 0`) -/
@@ -239,6 +242,7 @@ def RT.latestEvents (reports : List (List String)) (rt : RT) : List Ev :=
 /-- what one attached node observed -/
 structure SubOut where
   recv   : List Block              -- blocks received from its listener, in order
+  slow   : List Block              -- the same, as received by a second consumer that may stop reading for a while
   hists  : List (List BlockKey)    -- histories received from its history tracker, in order
   events : List (List Ev)          -- answers of its report tracker, one per query; the last is the final one
   seen   : List Nat                -- per query: how many blocks the node had received when it was asked
@@ -287,6 +291,7 @@ structure Choices where
   orders  : List (Option (List Nat))   -- per subscriber: arrival order (block indices) at its history and report
                                        -- trackers when the input does not fix it
   recvs   : List (Option (List Nat))   -- per subscriber: the same for the plain block subscription (separate goroutines)
+  slows   : List (Option (List Nat))   -- per subscriber: the same for the second, stallable block subscription
 deriving Repr
 
 def senderName (n : Nat) : String := s!"node-{n}"
@@ -401,7 +406,11 @@ def runSub (inp : Input) (ch : Choices) (chain : List Block) (s : Nat) : SubOut 
     | some ord => ord.filterMap (chain[·]?)
     | none => arrivals
   let queries := inp.queries.filter fun q => decide (inp.attach.getD s 0 < q)
-  { recv := recv, hists := histories numLt arrivals,
+  -- a consumer that stops reading loses nothing: the listener's senders wait and are served in order
+  let slow := match ch.slows.getD s none with
+    | some ord => ord.filterMap (chain[·]?)
+    | none => arrivals
+  { recv := recv, slow := slow, hists := histories numLt arrivals,
     events := queries.map (fun q => answer (before q)) ++ [answer arrivals],
     seen := queries.map (fun q => (before q).length) ++ [arrivals.length] }
 
